@@ -16,7 +16,9 @@ Shape4 == ShapeAll
 \* FALSE = /repo as written at the pinned commit, TRUE = /repo with latestRev computed over all listed
 \* revisions.  Selected by checks/c12.py (one constant there) through the environment.
 FixLatestSel == IF "VERIF_C12_FIXLATEST" \in DOMAIN IOEnv THEN IOEnv.VERIF_C12_FIXLATEST = "TRUE" ELSE FALSE
-\* scenario emission: one line per transition that ends a reconcile or is an XR reconcile
-Emit == ((pc # "idle" /\ pc' = "idle") \/ (hist' # hist /\ hist'[Len(hist')].k = "fetch"))
+\* scenario emission: one line per transition that ends a reconcile or is an XR reconcile between two
+\* reconciles of the revision controller (an XR reconcile in the middle of one is part of the history of
+\* the transition that ends that reconcile)
+Emit == ((pc # "idle" /\ pc' = "idle") \/ (pc = "idle" /\ hist' # hist /\ hist'[Len(hist')].k = "fetch"))
           => PrintT(<<"TRACE", ToJson(hist')>>)
 =============================================================================
